@@ -830,6 +830,7 @@ class state_machine_base : public FrontEnd
         completion_event_occurrence(uint8_t region_id)
             : event_occurrence(&try_process), m_region_id(region_id)
         {
+            mark_as_completion_event();
         }
 
         static std::optional<process_result> try_process(event_occurrence& self, void* sm, uint16_t /*seq_cnt*/)
@@ -842,6 +843,12 @@ class state_machine_base : public FrontEnd
             std::optional<process_result> try_process_impl(derived_t& sm)
             {
                 mark_for_deletion();
+                // The source state might have been left in the meantime.
+                if (sm.m_active_state_ids[m_region_id] !=
+                    derived_t::template get_state_id<State>())
+                {
+                    return process_result::HANDLED_FALSE;
+                }
                 return sm.template
                     process_completion_transition<completion_transition>(m_region_id);
             }
@@ -913,6 +920,14 @@ class state_machine_base : public FrontEnd
                 continue;
             }
 
+            // The requested number of events has been processed, only
+            // completion transitions of the states they entered still fire.
+            const bool is_completion_event = event.is_completion_event();
+            if (processed_events >= max_events && !is_completion_event)
+            {
+                break;
+            }
+
             std::optional<process_result> result =
                 event.try_process(self(), event_pool.cur_seq_cnt);
             // The event has not been dispatched.
@@ -923,13 +938,9 @@ class state_machine_base : public FrontEnd
             }
 
             // Consider anything except "only deferred" to be a processed event.
-            if (*result != process_result::HANDLED_DEFERRED)
+            if (*result != process_result::HANDLED_DEFERRED && !is_completion_event)
             {
                 processed_events++;
-                if (processed_events == max_events)
-                {
-                    break;
-                }
             }
 
             // Start from the beginning, we might be able to process
